@@ -281,10 +281,13 @@ PROPS["C03"] = {
     "stubs": SEQ_CUTS + ["ideal signatures: sig valid <=> sig == SIG(pk, msg)"], "assumptions": SEQ_ASSUME,
 }
 PROPS["C07"] = {
-    "runs": seq_check(["VH_SEQ_V2ReviseRevise", "VH_SEQ_V2ResolutionOutputs", "VH_SEQ_V2ResolveOnce"]),
+    "runs": seq_check(["VH_SEQ_V2ReviseRevise", "VH_SEQ_V2ResolutionOutputs", "VH_SEQ_V2ResolveOnce"]) + [
+        {"pkg": "consensus", "harness": ["harness/cons/storageproof.go"], "run": "^VH_C07_V2StorageProof$", "params": {"quick": {"maxleaves": 5}, "thorough": {"maxleaves": 9}},
+         "flags": {"quick": ["-timeout", "5000", "-maxpaths", "200000"], "thorough": ["-timeout", "20000", "-maxpaths", "2000000"]},
+         "must_reach": {"VH_C07_V2StorageProof": ["accepted", "end"]}}],
     "tv_runs": {"quick": 0, "thorough": 0},
-    "bounds": {"quick": "v2 contracts: revision rules against an independent specification, relative to the parent and relative to an earlier in-block revision; resolution creates exactly the outputs of its kind (renewal: final outputs, value split exactly; storage proof: valid outputs; expiration: renter + missed host value) with maturity = MaturityHeight(); at most one resolution per block", "thorough": "same"},
-    "outside": ["v1 contracts (revision/proof/expiry) at validator level", "storage-proof soundness/completeness against a data file (Merkle part): not built in this session"],
+    "bounds": {"quick": "v2 contracts: revision rules against an independent specification, relative to the parent and relative to an earlier in-block revision; resolution creates exactly the outputs of its kind (renewal: final outputs, value split exactly; storage proof: valid outputs; expiration: renter + missed host value) with maturity = MaturityHeight(); at most one resolution per block; v2 storage proof root: honest sibling path of every leaf of a 1..5-leaf file accepted, and for a symbolic proof (correct length and +-1) and symbolic presented leaf acceptance implies the presented leaf is the file's leaf at that index", "thorough": "files up to 9 leaves"},
+    "outside": ["v1 contracts (revision/proof/expiry) at validator level", "v2 storage proofs only up to 5 (thorough 9) leaves with every partial last-leaf length; v1 storage proofs (three eras, rhp/v2 ConvertProofOrdering) and the chain-derived challenge index (StorageProofLeafIndex is an arbitrary in-range index) are not covered"],
     "stubs": SEQ_CUTS, "assumptions": SEQ_ASSUME,
 }
 PROPS["C08"] = {
